@@ -94,7 +94,8 @@ def gen_lr(rng, nt, fmax, thorough):
             s.extend([str(t)] * rng.choice([1, 1, 1, 2, 2, 3, 5, 8]))
         else:
             s.extend([str(t)] * rng.choice([13, 21, 40]))
-    return dict(mode="LR", cap=10 * sum(len(p) for p in progs) + 300, hi=0, progs=progs, sched="".join(s[:total]))
+    # hi=1: node addresses with bit 31 set (the class of the comparator defect fixed by e07a9b8)
+    return dict(mode="LR", cap=10 * sum(len(p) for p in progs) + 300, hi=1 if rng.chance(1, 3) else 0, progs=progs, sched="".join(s[:total]))
 
 
 def h_line(c):
